@@ -4,3 +4,4 @@ pub mod refcal;
 pub mod refleap;
 pub mod reftext;
 pub mod reffmt;
+pub mod reftz;
